@@ -171,7 +171,7 @@ func run(c *hc.Ctx) {
 	// 2. region refinement: real And/Or/Not/Xor/DivideBy judged by the exact Lean specification
 	for it := 0; it < c.N; it++ {
 		var pool []hc.P2
-		class := []int{0, 0, 0, 1, 2, 3, 3, 4}[c.Intn(8)]
+		class := []int{0, 0, 0, 1, 1, 2, 3, 3, 4}[c.Intn(9)]
 		class2 := class
 		if c.Chance(0.3) {
 			class2 = []int{0, 1, 2, 3, 4}[c.Intn(5)]
@@ -210,7 +210,11 @@ func run(c *hc.Ctx) {
 				}
 			}); msg != "" {
 				first := strings.SplitN(msg, "\n", 2)[0]
-				c.Fail("panic:"+op+":"+first, op+" panicked: "+first, map[string]any{"op": op, "P": P.String(), "Q": Q.String()})
+				pk := "panic:" + op + ":" + first
+				if overl {
+					pk += "+overlapping-edges"
+				}
+				c.Fail(pk, op+" panicked: "+first, map[string]any{"op": op, "P": P.String(), "Q": Q.String()})
 				continue
 			}
 			cr, ok := hc.Contours(R)
